@@ -15,7 +15,7 @@ import (
 // C08 — validation results are written back: 304 freshens, 200 replaces.
 func init() { register(&Check{ID: "C08", Run: runC08, ShardDepth: 3}) }
 
-var c08Answers = []string{"304", "304+X-New", "304+max-age=20", "304+CL+hop", "304+CL+hop-lowercase", "304-no-date", "304+two-cc-lines", "200-same-vary", "200-other-vary", "200-no-store", "500"}
+var c08Answers = []string{"304", "304+X-New", "304+max-age=20", "304+CL+hop", "304+CL+hop-lowercase", "304+CL+hop-two-lines", "304-no-date", "304+two-cc-lines", "200-same-vary", "200-other-vary", "200-no-store", "500"}
 
 func runC08(x *mc.X) {
 	kind := mc.Pick(x, "stored.kind", []string{"max-age=10", "heuristic", "max-age=5,swr=100"})
@@ -117,6 +117,8 @@ func runC08(x *mc.X) {
 					hh = append(hh, [2]string{"Cache-Control", "public"}, [2]string{"Cache-Control", "max-age=20"}, [2]string{"Link", "<a>; rel=x"}, [2]string{"Link", "<b>; rel=y"})
 				case "304+CL+hop":
 					hh = append(hh, [2]string{"Content-Length", "9999"}, [2]string{"Connection", "X-Hop"}, [2]string{"X-Hop", "h"}, [2]string{"Keep-Alive", "timeout=5"})
+				case "304+CL+hop-two-lines": // every Connection field line nominates hop-by-hop fields
+					hh = append(hh, [2]string{"Content-Length", "9999"}, [2]string{"Connection", "keep-alive"}, [2]string{"Connection", "X-Hop"}, [2]string{"X-Hop", "h"}, [2]string{"Keep-Alive", "timeout=5"})
 				case "304+CL+hop-lowercase": // connection options are case-insensitive
 					hh = append(hh, [2]string{"Content-Length", "9999"}, [2]string{"Connection", "x-hop, KEEP-ALIVE"}, [2]string{"X-Hop", "h"}, [2]string{"Keep-Alive", "timeout=5"})
 				}
